@@ -864,28 +864,45 @@ def conelp(c, G, h, dims = None, A = None, b = None, primalstart = None,
 
     gap = misc.sdot(s, z, dims)
 
+    # Norms of x- and y-vectors.  The squares of very small entries 
+    # underflow; the vector is rescaled then, so that the norm of a 
+    # nonzero residual is not evaluated as zero.
+    def xnrm2(u):
+        a = xdot(u, u)
+        if a >= 1e-280: return math.sqrt(a)
+        v = xnewcopy(u)
+        xscal(2.0**500, v)
+        return math.sqrt( xdot(v, v) ) / 2.0**500
+
+    def ynrm2(u):
+        a = ydot(u, u)
+        if a >= 1e-280: return math.sqrt(a)
+        v = ynewcopy(u)
+        yscal(2.0**500, v)
+        return math.sqrt( ydot(v, v) ) / 2.0**500
+
     for iters in range(MAXITERS+1):
 
         # hrx = -A'*y - G'*z
         Af(y, hrx, alpha = -1.0, trans = 'T')
         Gf(z, hrx, alpha = -1.0, beta = 1.0, trans = 'T')
-        hresx = math.sqrt( xdot(hrx, hrx) )
+        hresx = xnrm2(hrx)
 
         # rx = hrx - c*tau
         #    = -A'*y - G'*z - c*tau
         xcopy(hrx, rx)
         xaxpy(c, rx, alpha = -tau)
-        resx = math.sqrt( xdot(rx, rx) ) / tau
+        resx = xnrm2(rx) / tau
 
         # hry = A*x
         Af(x, hry)
-        hresy = math.sqrt( ydot(hry, hry) )
+        hresy = ynrm2(hry)
 
         # ry = hry - b*tau
         #    = A*x - b*tau
         ycopy(hry, ry)
         yaxpy(b, ry, alpha = -tau)
-        resy = math.sqrt( ydot(ry, ry) ) / tau
+        resy = ynrm2(ry) / tau
 
         # hrz = s + G*x
         Gf(x, hrz)
